@@ -453,7 +453,7 @@ func ruleC02_4(c *Ctx) {
 			}
 			nret++
 			name := fmt.Sprintf("%s: return #%d", tag, nret)
-			if isNilConst(r.Results[1]) {
+			if isNilConst(results(r)[1]) {
 				c.check(dominatesInstr(dc.(ssa.Instruction), r), name+" (success)", c.at(r), "dominated by the Discard",
 					"a successful decode can return without consuming its bytes: the same request is decoded again on the next round (duplicated)")
 			} else {
@@ -747,7 +747,7 @@ func (c *Ctx) retains(fn *ssa.Function, pi int, depth int, memo map[string][]ret
 				out = append(out, retainFinding{fn, in, "stored in a map"})
 			}
 		case *ssa.Return:
-			for _, r := range x.Results {
+			for _, r := range results(x) {
 				if tainted[r] {
 					out = append(out, retainFinding{fn, in, "returned to the caller"})
 				}
